@@ -123,4 +123,27 @@ def Obs.isProbe : Obs → Bool
   | .probed .. => true
   | _ => false
 
+/-! ## several driver objects in one process -/
+
+/-- Several sessions (driver objects, indexed by a number) live side by side; an event belongs to
+one of them. As built nothing of the negotiation state is shared between driver objects (the
+package-level pattern table is written once, by its constructor). -/
+def stepMulti (frozen reopen : Bool) (st : Nat → DState) (e : Nat × Ev) : (Nat → DState) × (Nat × Obs) :=
+  let r := step frozen reopen (st e.1) e.2
+  (fun i => if i = e.1 then r.1 else st i, (e.1, r.2))
+
+def runMulti (frozen reopen : Bool) : (Nat → DState) → List (Nat × Ev) → List (Nat × Obs)
+  | _, [] => []
+  | st, e :: es => (stepMulti frozen reopen st e).2 :: runMulti frozen reopen (stepMulti frozen reopen st e).1 es
+
+def finalMulti (frozen reopen : Bool) : (Nat → DState) → List (Nat × Ev) → (Nat → DState)
+  | st, [] => st
+  | st, e :: es => finalMulti frozen reopen (stepMulti frozen reopen st e).1 es
+
+/-- the framing a session uses for its later traffic is the one its own state selected -/
+def sessionWire (s : DState) (ret xml : Bytes) : Option Bytes :=
+  if s.sel == Gen.Netconf.V1Dot0 then some (requestWire .v10 ret xml)
+  else if s.sel == Gen.Netconf.V1Dot1 then some (requestWire .v11 ret xml)
+  else none
+
 end Scrapli.Netconf.Hello
